@@ -338,7 +338,13 @@ def query_and_path(chk, ex):
     for pc, (k, r) in outs:
         if k != 'ok':
             m = chk.prove('path/no-panic', pc, z3.BoolVal(True), extra=[z3.Not(missing)])
-            if m is not None: chk.mismatches.append(f'http_extract_path_params panics: {r}')
+            if m is not None:
+                # long path segments with multi-byte characters at every offset around 256 bytes of error text
+                from urllib.parse import quote
+                cases_ = [{'op': 'typed_request', 'method': 'GET', 'target': '/p/' + quote('x' * k + '\u20ac' * 12, safe='') + '/1/1'} for k in (235, 236, 237, 238, 239, 240, 241)]
+                nats = replay(cases_)
+                bad_ = [c_['target'][:12] + '..' for c_, n_ in zip(cases_, nats) if not (400 <= n_.get('status', 0) <= 499 and n_.get('entered') == 0)]
+                chk.counterexample(f'http_extract_path_params panics ({r}); long non-ASCII path segments for a u8 field: {[(n_.get("status"), n_.get("entered")) for n_ in nats]}', cases_[3], bool(bad_), role='path:panic')
             continue
         if r.discr == 0: m = chk.prove('path/accepted-only-if-decoder-accepts', pc, z3.Not(pok))
         else:
